@@ -2,6 +2,9 @@
 
 spec/C04/Procs.tla        P-spec: a family of PlusCal programs with procedures; pcal translates it
                           at check time -- PlusCal itself is the oracle of call/return semantics
+                          (recursion, mutual recursion, tail calls, nesting, ref parameters to
+                          archetype resources, a procedure's own local/parameter lent by reference
+                          to a borrower that re-enters the owner [lend, lendt], data-driven call trees)
 spec/C04/ProcsData.tla    the input family (arguments, call trees), exported by TLC to the driver
 spec/C04/Frames.tla       the generic frame discipline, an action property of every translation
 spec/C04/MCProcs.tla      design level: exhaustive TLC over the family
@@ -413,7 +416,7 @@ def run(chk):
         "m_level_cases_without_drift": m_clean,
         "family": {"MaxArg": max_arg, "MaxNodes": max_nodes, "abort_plans": modes, "random_plans": nrand, "ps_args": PS_ARGS},
     })
-    want = ["fact:2:late:0", "ref:1:mix:0", "tree:%d:none:0" % max([x[0].get("arg", 0) for x in suites["procs"] if x[0].get("prog") == "tree"] or [0]),
+    want = ["fact:2:late:0", "ref:1:mix:0", "lendt:2:mid:0", "tree:%d:none:0" % max([x[0].get("arg", 0) for x in suites["procs"] if x[0].get("prog") == "tree"] or [0]),
             "ps:13:mid:0"]
     for sg in segs:
         if sg[0].get("id") in want:
